@@ -1245,6 +1245,25 @@ BOUNDARY = [
                'doPoll': [[0, 'ok']], 'doPollReads': [], 'init': [[0, 'ok']], 'initReads': [], 'enabled': False,
                'written': True, 'wscript': [16, 'comm']}],
      'actions': [{'at': 100, 'op': 'fast', 'm': 2, 'flag': True, 'v': 64}], 'T': 40 * TICKS, 'start': 1000},
+    # wake-ups driven by slow intervals alone: every poll interval on the thread is much longer than the slow interval of
+    # one module, the slow intervals differ, and that module is not the owner of the thread (first scenario) / is the
+    # owner (second scenario); nobody triggers
+    {'mods': [{'base': 'io', 'pollinterval': 10240, 'slow': 15360, 'params': [], 'enabled': True, 'doPoll': [[8, 'ok']], 'init': [[0, 'ok']]},
+              {'base': 'readable', 'has_io': True, 'pollinterval': 10240, 'slow': 512,
+               'params': [{'name': 'a', 'kind': 'read', 'script': [[8, 'ok']]}, {'name': 'b', 'kind': 'read', 'script': [[8, 'silent']]}],
+               'doPoll': [[8, 'ok']], 'doPollReads': [], 'init': [[0, 'ok']], 'initReads': [], 'enabled': True},
+              {'base': 'module', 'has_io': True, 'pollinterval': 5120, 'slow': 1024,
+               'params': [{'name': 'a', 'kind': 'read', 'script': [[8, 'ok']]}],
+               'doPoll': [[8, 'ok']], 'doPollReads': [], 'init': [[0, 'ok']], 'initReads': [], 'enabled': True}],
+     'actions': [], 'T': 60 * TICKS, 'start': 1000},
+    {'mods': [{'base': 'io', 'pollinterval': 10240, 'slow': 512, 'params': [], 'enabled': True, 'doPoll': [[8, 'ok']], 'init': [[0, 'ok']]},
+              {'base': 'readable', 'has_io': True, 'pollinterval': 10240, 'slow': 15360,
+               'params': [{'name': 'a', 'kind': 'read', 'script': [[8, 'ok']]}],
+               'doPoll': [[8, 'ok']], 'doPollReads': [], 'init': [[0, 'ok']], 'initReads': [], 'enabled': True},
+              {'base': 'module', 'has_io': True, 'pollinterval': 5120, 'slow': 2048,
+               'params': [{'name': 'a', 'kind': 'read', 'script': [[8, 'zd']]}, {'name': 'b', 'kind': 'read', 'script': [[8, 'ok']]}],
+               'doPoll': [[8, 'ok']], 'doPollReads': [], 'init': [[0, 'ok']], 'initReads': [], 'enabled': True}],
+     'actions': [], 'T': 60 * TICKS, 'start': 1000},
 ]
 
 
